@@ -16,7 +16,8 @@ VASP (`poscar_*`, `chgcar_*`, `locpot_*`): the read bound of the two grid format
 dictionaries the constructor rejects (a cell line or a Cartesian atom line with other than three numbers, no
 atoms): `*_shapes` states what is returned and that whatever passes `IOData(**result)` is consistent (`natom` rows
 of three coordinates, `atnums` of length `natom`, cell `(3, 3)`, grid data of three dimensions holding exactly
-their product of values), everything else is the constructor's `TypeError` ⇒ `LoadError`.
+their product of values), everything else is the constructor's `TypeError` ⇒ `LoadError`; `*_failures` lists the
+exception classes each reader can raise (each attained, see the examples).
 Generic: `ctor_shapes` (validators ⇒ consistent shapes, anything else is `TypeError` ⇒ `LoadError`),
 `reader_load_one` (any reader outcome through the funnel), `reader_load_many_partial` (any sequence of reader
 outcomes as the frames of a generator-based `load_many`: `StopIteration` ⇒ `RuntimeError` (PEP 479) ⇒ `LoadError`;
@@ -739,6 +740,26 @@ theorem locpot_load_one (T : Tables) (ls : List Str) (path : Nat) (fs : FS) :
       ∃ evs, st'.trace = .close :: (evs ++ [.openR]) ∧ LoadEvs evs :=
   reader_load_one _ _ _ _
 
+/-- **poscar_failures**: whenever the POSCAR reader raises, the class is one of `StopIteration` (file too short),
+`ValueError` (`float()`, `int()`, ragged rows in `np.array`, `np.dot` shapes), `KeyError` (unknown element symbol),
+`IndexError` (`line[0]` of an empty string), `OverflowError` / `MemoryError` (`[n] * count`) — all of them
+`Exception`s, which the funnel turns into `LoadError` (`poscar_load_one`). -/
+theorem poscar_failures (T : Tables) (ls : List Str) (c : Cls) (h : (Rd.Vasp.readPoscar T ls).res = .error c) :
+    c ∈ [Cls.stopIter, .value, .key, .index, .overflow, .memory] :=
+  run_error_mem (Rd.Vasp.poscar_raises T) ls c h
+
+/-- **chgcar_failures**: whenever the CHGCAR reader raises, the class is one of those of `poscar_failures`, or
+`TypeError` (`np.zeros` with `float64` dimensions, the `Cube` validator on a cell that is not `(3, 3)`), or `NameError`
+(`UnboundLocalError`: no line after the header, the shape loop never ran). -/
+theorem chgcar_failures (T : Tables) (ls : List Str) (c : Cls) (h : (Rd.Vasp.readChgcar T ls).res = .error c) :
+    c ∈ [Cls.stopIter, .value, .key, .index, .overflow, .memory, .type, .name] :=
+  run_error_mem (Rd.Vasp.grid_raises T) ls c h
+
+/-- **locpot_failures**: as `chgcar_failures`. -/
+theorem locpot_failures (T : Tables) (ls : List Str) (c : Cls) (h : (Rd.Vasp.readLocpot T ls).res = .error c) :
+    c ∈ [Cls.stopIter, .value, .key, .index, .overflow, .memory, .type, .name] :=
+  run_error_mem (Rd.Vasp.grid_raises T) ls c h
+
 /-! ### non-vacuity (the generated tables, evaluated by the kernel) -/
 
 example : (Rd.Xyz.read Gen.Layouts.tables
@@ -779,5 +800,22 @@ example : Rd.Vasp.readChgcar Gen.Layouts.tables (vaspHeaderEx ++ [['1',' ','1','
 example : apiOutcome (Rd.Vasp.readPoscar Gen.Layouts.tables
       [['t','\n'], ['1','\n'], ['1',' ','0',' ','0','\n'], ['0',' ','1',' ','0','\n'], ['0',' ','0',' ','1','\n'],
        ['H','\n'], ['1','\n'], ['C','\n'], ['0',' ','0','\n']]) = .raised .load (some 9) := by decide +kernel
+
+/-- each class of `poscar_failures` is attained: unknown symbol, empty mode line, huge counts -/
+example : Rd.Vasp.readPoscar Gen.Layouts.tables (vaspHeaderEx.take 5 ++ [['o','\n']]) = ⟨.error .key, 6⟩ := by
+  decide +kernel
+example : Rd.Vasp.readPoscar Gen.Layouts.tables (vaspHeaderEx.take 7 ++ [[]]) = ⟨.error .index, 8⟩ := by
+  decide +kernel
+example : Rd.Vasp.readPoscar Gen.Layouts.tables
+    (vaspHeaderEx.take 6 ++ [['9','9','9','9','9','9','9','9','9','9','9','9','9','9','9','9','9','9','9','9','\n']])
+    = ⟨.error .overflow, 7⟩ := by decide +kernel
+example : Rd.Vasp.readPoscar Gen.Layouts.tables
+    (vaspHeaderEx.take 6 ++ [['3','0','0','0','0','0','0','0','0','0','\n']]) = ⟨.error .memory, 7⟩ := by
+  decide +kernel
+/-- a cell line with two numbers: `TypeError` from the `Cube` validator in the grid formats -/
+example : Rd.Vasp.readChgcar Gen.Layouts.tables
+    ([['t','\n'], ['1','\n'], ['1',' ','0','\n'], ['0',' ','1','\n'], ['0',' ','0','\n'], ['H','\n'], ['1','\n'],
+      ['C','\n'], ['0',' ','0',' ','0','\n'], ['1',' ','1',' ','1','\n'], ['5','\n']]) = ⟨.error .type, 11⟩ := by
+  decide +kernel
 
 end Iodata.Props.C07Readers
